@@ -124,8 +124,17 @@ func parseTable(stdout string) []string {
 	return rows
 }
 
+// histEntries reads what the loader makes of the history file (nothing, for a file it rejects
+// outright). The loader runs on a scratch copy: reading must not change the file under examination.
 func histEntries(p string) []history.SearchEntry {
-	sh := history.NewSearchHistory(p, 100)
+	b, err := os.ReadFile(p)
+	if err != nil {
+		return nil
+	}
+	scratch := gen.TempPath(".json")
+	defer os.Remove(scratch)
+	os.WriteFile(scratch, b, 0o644)
+	sh := history.NewSearchHistory(scratch, 100)
 	_ = sh.Load()
 	return sh.Entries
 }
@@ -174,13 +183,22 @@ func TestC17_Search(t *testing.T) {
 			toks = append(toks, "list", "directory", "copy", "files", "delete")
 		}
 		nSearch := rapid.IntRange(1, 4).Draw(t, "searches")
+		// the home may already hold a history: a healthy one, one from another version, or a damaged file
+		histStart := rapid.SampledFrom([]string{"absent", "absent", "absent", "healthy", "foreign-limit", "cut-off", "garbage", "wrong-types", "empty"}).Draw(t, "history-file")
+		if histStart != "absent" {
+			os.MkdirAll(filepath.Dir(h.History()), 0o755)
+			healthy := `{"entries":[{"query":"older search","timestamp":"2024-01-02T03:04:05Z","results_count":2},{"query":"old search","timestamp":"2024-01-02T03:05:05Z","results_count":1,"context":"git"}],"max_size":100}`
+			content := map[string]string{"healthy": healthy, "foreign-limit": strings.Replace(healthy, `"max_size":100`, `"max_size":0`, 1), "cut-off": healthy[:len(healthy)/2],
+				"garbage": "\x00\x01 not json at all", "wrong-types": `{"entries":"none","max_size":"lots"}`, "empty": ""}[histStart]
+			os.WriteFile(h.History(), []byte(content), 0o644)
+		}
 		prevHist := histEntries(h.History())
 		anyResult := false
 		var labels []string
 		var lastArgsQ []string
 		for s := 0; s < nSearch; s++ {
 			var argsQ []string
-			qkind := rapid.SampledFrom([]string{"vocab", "vocab", "vocab", "typo", "recovery", "padded", "split", "rejected-meta", "rejected-blank", "control", "long", "unicode", "repeat", "repeat", "repeat-recased", "repeat-recased", "question", "invalid-utf8"}).Draw(t, "qkind")
+			qkind := rapid.SampledFrom([]string{"vocab", "vocab", "vocab", "typo", "recovery", "padded", "split", "verb-first", "verb-first", "rejected-meta", "rejected-blank", "control", "long", "unicode", "repeat", "repeat", "repeat-recased", "repeat-recased", "question", "invalid-utf8"}).Draw(t, "qkind")
 			w := rapid.SampledFrom(toks)
 			switch qkind {
 			case "vocab":
@@ -193,6 +211,13 @@ func TestC17_Search(t *testing.T) {
 				argsQ = []string{"  " + w.Draw(t, "w1") + " \t " + w.Draw(t, "w2") + "  "}
 			case "split":
 				argsQ = []string{w.Draw(t, "w1"), w.Draw(t, "w2"), "the"}
+			case "verb-first":
+				// the way people type: `wtf find large files` - an everyday verb first, each word its own
+				// argument; none of these words names a sub-command
+				argsQ = []string{rapid.SampledFrom([]string{"find", "list", "show", "get", "run", "s", "ls"}).Draw(t, "verb"), w.Draw(t, "w1")}
+				if rapid.Bool().Draw(t, "verb-alone") {
+					argsQ = argsQ[:1]
+				}
 			case "rejected-meta":
 				argsQ = []string{w.Draw(t, "w") + rapid.SampledFrom([]string{" | grep", " > out", "; rm", " && x", " $HOME", "<in"}).Draw(t, "meta")}
 			case "rejected-blank":
@@ -243,7 +268,7 @@ func TestC17_Search(t *testing.T) {
 				platforms = append(platforms, p)
 			}
 			var args []string
-			if rapid.Bool().Draw(t, "sub") {
+			if rapid.IntRange(0, 3).Draw(t, "sub") >= 2 && qkind != "verb-first" || rapid.IntRange(0, 3).Draw(t, "sub-verb-first") == 0 && qkind == "verb-first" {
 				args = append(args, "search")
 			}
 			args = append(args, "-d", dbp, "--format", format)
@@ -281,8 +306,29 @@ func TestC17_Search(t *testing.T) {
 			if noX {
 				args = append(args, "--no-cross-platform")
 			}
-			args = append(args, "--")
-			args = append(args, argsQ...)
+			bare := true
+			for _, a := range argsQ {
+				if strings.HasPrefix(a, "-") {
+					bare = false
+				}
+			}
+			switch argsQ[0] { // a first word that names a sub-command is that sub-command, by design
+			case "search", "pipeline", "save", "save-pipeline", "history", "alias", "setup", "wizard", "help", "completion":
+				bare = false
+			}
+			if bare && (qkind == "verb-first" || rapid.IntRange(0, 2).Draw(t, "words-first") == 0) {
+				// `wtf find files --format json`: the query words first, no `--`, the flags after them
+				flags := args
+				args = nil
+				if len(flags) > 0 && flags[0] == "search" {
+					args, flags = []string{"search"}, flags[1:]
+				}
+				args = append(append(args, argsQ...), flags...)
+				labels = append(labels, "words-first")
+			} else {
+				args = append(args, "--")
+				args = append(args, argsQ...)
+			}
 			var r proc.Result
 			ecwd := cwd
 			if rapid.IntRange(0, 9).Draw(t, "removed-cwd") == 0 {
